@@ -228,7 +228,12 @@ def rowAt {V} (rows : List (Row V)) (k : Int × Int) : Option (Row V) := rows.fi
 /-- The two datasets of a variable group for a frame whose columns `idx` are exported.  NODE: first
 non-missing cell per node.  ELEMENT_NODAL (`_element_nodal_positions`): the frame's rows looked up by the stored
 (element, node) pairs; `none` (KeyError / InvalidIndexError) when the frame's keys are not distinct, a stored pair has no
-row, or the frame has other rows than those. -/
+row, or the frame has other rows than those.
+Scope: the model asks for distinct keys.  The code (tools/fixes/C20-6) also accepts the geometry's OWN repeated pairs - a
+collapsed element such as 1 2 4 4 - by numbering the occurrences on both sides; frames with repeated (element, node) pairs are
+outside this model and its theorems (pyLife's importer multiplies such rows in its joins); that case is judged on the file by the
+harness (scenario `collapsed`).  The code collects the values and runs these checks before it creates the state / geometry
+groups; the model creates the groups first - groups that hold no variable are not content and are not compared. -/
 def buildVariable {V} [Cell V] (loc : Nat) (g : Geometry V) (fr : Frame V) (idx : List Nat) : Option (Variable V) :=
   if loc = 2 then
     some ⟨2, idx.length, nodeIds fr, (nodeIds fr).map (nodeValue fr.rows idx)⟩
